@@ -19,6 +19,7 @@ import (
 )
 
 type (
+	Conn     = net.Conn
 	Listener = net.Listener
 	Error    = net.Error
 	NetAddr  = net.Addr
@@ -42,11 +43,11 @@ type half struct {
 	total   int // bytes ever written
 }
 
-// Conn is one end of a virtual connection.
-type Conn struct {
+// VConn is one end of a virtual connection.
+type VConn struct {
 	id       int
 	in, out  *half
-	peer     *Conn
+	peer     *VConn
 	closed   bool
 	local    Addr
 	remote   Addr
@@ -63,7 +64,7 @@ type Conn struct {
 
 type registry struct {
 	listeners map[string]*listener
-	conns     []*Conn
+	conns     []*VConn
 	nextPort  int
 	dialHook  func(addr string) error
 }
@@ -85,23 +86,23 @@ func reg() *registry {
 func SetDialHook(f func(addr string) error) { reg().dialHook = f }
 
 // Conns returns every connection end created in this execution.
-func Conns() []*Conn { return reg().conns }
+func Conns() []*VConn { return reg().conns }
 
-func (c *Conn) String() string {
+func (c *VConn) String() string {
 	return fmt.Sprintf("conn%d[%s %s->%s]", c.id, c.Label, c.local, c.remote)
 }
 
-func newPair(r *registry, client, server Addr) (*Conn, *Conn) {
+func newPair(r *registry, client, server Addr) (*VConn, *VConn) {
 	a2b, b2a := &half{}, &half{}
-	a := &Conn{id: len(r.conns), in: b2a, out: a2b, local: client, remote: server}
-	b := &Conn{id: len(r.conns) + 1, in: a2b, out: b2a, local: server, remote: client, server: true}
+	a := &VConn{id: len(r.conns), in: b2a, out: a2b, local: client, remote: server}
+	b := &VConn{id: len(r.conns) + 1, in: a2b, out: b2a, local: server, remote: client, server: true}
 	a.peer, b.peer = b, a
 	r.conns = append(r.conns, a, b)
 	return a, b
 }
 
 // Pipe returns two connected ends without a listener.
-func Pipe() (*Conn, *Conn) {
+func Pipe() (*VConn, *VConn) {
 	r := reg()
 	r.nextPort++
 	return newPair(r, Addr(fmt.Sprintf("127.0.0.1:%d", r.nextPort)), Addr("10.0.0.1:1"))
@@ -109,7 +110,7 @@ func Pipe() (*Conn, *Conn) {
 
 var errClosed = net.ErrClosed
 
-func opErr(op string, c *Conn, err error) error {
+func opErr(op string, c *VConn, err error) error {
 	return &net.OpError{Op: op, Net: "tcp", Source: c.local, Addr: c.remote, Err: err}
 }
 
@@ -128,11 +129,11 @@ func EnableShortReads() {
 	}
 }
 
-func (c *Conn) readReady() bool {
+func (c *VConn) readReady() bool {
 	return c.closed || c.in.reset || len(c.in.buf) > 0 || c.in.wclosed || c.in.rclosed || c.rdExp
 }
 
-func (c *Conn) Read(b []byte) (int, error) {
+func (c *VConn) Read(b []byte) (int, error) {
 	sched.Wait("net-read", c, c.readReady)
 	c.ReadN++
 	switch {
@@ -166,7 +167,7 @@ func (c *Conn) Read(b []byte) (int, error) {
 	panic("vnet: read scheduled while not ready")
 }
 
-func (c *Conn) Write(b []byte) (int, error) {
+func (c *VConn) Write(b []byte) (int, error) {
 	sched.Op("net-write", c)
 	c.WriteN++
 	switch {
@@ -189,7 +190,7 @@ func (c *Conn) Write(b []byte) (int, error) {
 	return len(b), nil
 }
 
-func (c *Conn) Close() error {
+func (c *VConn) Close() error {
 	sched.Op("net-close", c)
 	if c.closed {
 		return opErr("close", c, errClosed)
@@ -203,7 +204,7 @@ func (c *Conn) Close() error {
 }
 
 // CloseWrite shuts down the writing side (FIN).
-func (c *Conn) CloseWrite() error {
+func (c *VConn) CloseWrite() error {
 	sched.Op("net-closewrite", c)
 	if c.closed {
 		return opErr("close", c, errClosed)
@@ -213,7 +214,7 @@ func (c *Conn) CloseWrite() error {
 }
 
 // CloseRead shuts down the reading side.
-func (c *Conn) CloseRead() error {
+func (c *VConn) CloseRead() error {
 	sched.Op("net-closeread", c)
 	if c.closed {
 		return opErr("close", c, errClosed)
@@ -224,22 +225,22 @@ func (c *Conn) CloseRead() error {
 }
 
 // Reset injects a connection reset seen by both ends (buffered data is lost).
-func (c *Conn) Reset() {
+func (c *VConn) Reset() {
 	sched.Op("net-reset", c)
 	c.in.reset, c.out.reset = true, true
 	c.in.buf, c.out.buf = nil, nil
 }
 
-func (c *Conn) LocalAddr() net.Addr  { return c.local }
-func (c *Conn) RemoteAddr() net.Addr { return c.remote }
+func (c *VConn) LocalAddr() net.Addr  { return c.local }
+func (c *VConn) RemoteAddr() net.Addr { return c.remote }
 
-func (c *Conn) SetDeadline(t time.Time) error {
+func (c *VConn) SetDeadline(t time.Time) error {
 	c.SetReadDeadline(t)
 	c.SetWriteDeadline(t)
 	return nil
 }
 
-func (c *Conn) SetReadDeadline(t time.Time) error {
+func (c *VConn) SetReadDeadline(t time.Time) error {
 	if c.closed {
 		return opErr("set", c, errClosed)
 	}
@@ -258,7 +259,7 @@ func (c *Conn) SetReadDeadline(t time.Time) error {
 	return nil
 }
 
-func (c *Conn) SetWriteDeadline(t time.Time) error {
+func (c *VConn) SetWriteDeadline(t time.Time) error {
 	if c.closed {
 		return opErr("set", c, errClosed)
 	}
@@ -279,19 +280,19 @@ func (c *Conn) SetWriteDeadline(t time.Time) error {
 
 // ---- inspection for oracles -----------------------------------------------
 
-func (c *Conn) IsClosed() bool     { return c.closed }
-func (c *Conn) Peer() *Conn        { return c.peer }
-func (c *Conn) IsServerSide() bool { return c.server }
-func (c *Conn) Buffered() int      { return len(c.in.buf) }
-func (c *Conn) PeerFinished() bool { return c.in.wclosed }
-func (c *Conn) TotalWritten() int  { return c.out.total }
-func (c *Conn) WasReset() bool     { return c.in.reset }
+func (c *VConn) IsClosed() bool     { return c.closed }
+func (c *VConn) Peer() *VConn       { return c.peer }
+func (c *VConn) IsServerSide() bool { return c.server }
+func (c *VConn) Buffered() int      { return len(c.in.buf) }
+func (c *VConn) PeerFinished() bool { return c.in.wclosed }
+func (c *VConn) TotalWritten() int  { return c.out.total }
+func (c *VConn) WasReset() bool     { return c.in.reset }
 
 // ---- listeners and dialing --------------------------------------------------
 
 type listener struct {
 	addr    Addr
-	backlog []*Conn
+	backlog []*VConn
 	closed  bool
 	// AcceptErrs are returned (in order) by Accept before real connections.
 	acceptErrs []error
@@ -396,12 +397,12 @@ func Dial(network, address string) (net.Conn, error) {
 }
 
 // DialConn is Dial returning the concrete type.
-func DialConn(address string) (*Conn, error) {
+func DialConn(address string) (*VConn, error) {
 	c, err := Dial("tcp", address)
 	if err != nil {
 		return nil, err
 	}
-	return c.(*Conn), nil
+	return c.(*VConn), nil
 }
 
 // InjectAcceptError makes the listener at address return err from its next Accept.
